@@ -272,4 +272,45 @@ CONTRACTS = {
     requires=['sizes_ok(self)', 'pairs_ok(self)'],          # NOT has_vars: after a brute-force solve the pairs carry no LP variable
     loops={0: dict(invariant=[]), 1: dict(invariant=[]), 2: dict(invariant=[])},
     returns=('str', 'debug')),
+
+ # ---- C01 / C02 / C18: creation of the LP variables.  Every pair gets its binary decision variable, named by its student and
+ #      project numbers (variable identity = name, T3/T5); with -stab also alpha / beta; the three per-lecturer families when a
+ #      load-balancing criterion is requested, with the documented bounds; the closure variables with -pc.  EXACT: the domains
+ #      below are all that is added to the program.
+ P + 'pulp_setup': dict(inline=True),
+ M + 'pulp_setup': dict(
+    params={'prob': ('ext', 'LpProblem'), 'instance_options': ('dict', 'Instance_options', {'NUMAGENTS': 'int', 'TWOPL': 'bool', 'PC': 'bool'}),
+            'extra_constraints': ('dict', 'Extra_constraints', {'STAB': 'bool'}), 'optimisation_options': ('list', 'crit')},
+    self_fields={'project_closures': ('absent', ('list', 'var')), 'abs_lec_diff': ('absent', ('list', 'var')), 'lec_overload': ('absent', ('list', 'aff')), 'lec_underload': ('absent', ('list', 'aff'))},
+    requires=['sizes_ok(self)', 'pairs_ok(self)'],
+    defs={'STAB': ([], 'extra_constraints[Extra_constraints.STAB]'),
+          'named': (['p'], "has(p, 'lp_var') and p.lp_var == pairvar(p.studentID, p.projectID)"
+                           " and implies(STAB(), has(p, 'alpha_var') and has(p, 'beta_var') and p.alpha_var == alphavar(p.studentID, p.projectID) and p.beta_var == betavar(p.studentID, p.projectID))"),
+          'dom': (['p'], '0 <= nu(p.lp_var) and nu(p.lp_var) <= 1 and implies(STAB(), 0 <= nu(p.alpha_var) and nu(p.alpha_var) <= 1 and 0 <= nu(p.beta_var) and nu(p.beta_var) <= 1)'),
+          'row_named': (['i', 'upto'], 'forall(c, 0, upto, named(self.pairs[i][c]))'),
+          'row_dom': (['i', 'upto'], 'forall(c, 0, upto, dom(self.pairs[i][c]))'),
+          'needs_lb': (['upto'], 'exists(t, 0, upto, optimisation_options[t][0] == Optimisation_options.LOADMAXBAL'
+                                 ' or optimisation_options[t][0] == Optimisation_options.LOADSUMBAL or optimisation_options[t][0] == Optimisation_options.MINCOSTLSB)'),
+          'lb_dom': (['k'], "0 - self.lec_upper_quotas[k] <= nu(indexedvar('lec_overload_', k)) and nu(indexedvar('lec_overload_', k)) <= self.lec_upper_quotas[k]"
+                            " and 0 - self.lec_upper_quotas[k] <= nu(indexedvar('lec_underload_', k)) and nu(indexedvar('lec_underload_', k)) <= self.lec_upper_quotas[k]"
+                            " and 0 <= nu(indexedvar('abs_lec_diff_', k)) and nu(indexedvar('abs_lec_diff_', k)) <= self.lec_upper_quotas[k]"),
+          'pc_dom': (['j'], "0 <= nu(indexedvar('project_closures_', j)) and nu(indexedvar('project_closures_', j)) <= 1"),
+          'PAIRS': ([], 'forall(i, 0, self.num_students, row_dom(i, len(self.pairs[i])))')},
+    loops={0: dict(invariant=['forall(i, 0, _k, row_named(i, len(self.pairs[i])))',
+                              'feas() == (old(feas()) and forall(i, 0, _k, row_dom(i, len(self.pairs[i]))))']),
+           1: dict(invariant=['forall(i, 0, _k0, row_named(i, len(self.pairs[i])))', 'row_named(_k0, _k)',
+                              'feas() == (old(feas()) and forall(i, 0, _k0, row_dom(i, len(self.pairs[i]))) and row_dom(_k0, _k))']),
+           2: dict(invariant=['load_balancing_variables_needed == needs_lb(_k)']),
+           3: dict(invariant=['len(self.lec_overload) == _k', 'len(self.lec_underload) == _k', 'len(self.abs_lec_diff) == _k',
+                              "forall(k, 0, _k, self.abs_lec_diff[k] == indexedvar('abs_lec_diff_', k))",
+                              'feas() == (old(feas()) and PAIRS() and forall(k, 0, _k, lb_dom(k)))']),
+           4: dict(invariant=['len(self.project_closures) == _k', "forall(j, 0, _k, self.project_closures[j] == indexedvar('project_closures_', j))",
+                              'feas() == (old(feas()) and PAIRS() and implies(needs_lb(len(optimisation_options)), forall(k, 0, self.num_lecturers, lb_dom(k))) and forall(j, 0, _k, pc_dom(j)))'])},
+    modifies=['self.project_closures', 'self.abs_lec_diff', 'self.lec_overload', 'self.lec_underload', 'heap:lp_var', 'heap:alpha_var', 'heap:beta_var', 'ghost:feas'],
+    ensures=[('every-pair-has-its-variables', 'forall(i, 0, self.num_students, row_named(i, len(self.pairs[i])))'),
+             ('load-balancing-variables-when-needed', 'implies(needs_lb(len(optimisation_options)), len(self.abs_lec_diff) == self.num_lecturers and len(self.lec_overload) == self.num_lecturers'
+              " and len(self.lec_underload) == self.num_lecturers and forall(k, 0, self.num_lecturers, self.abs_lec_diff[k] == indexedvar('abs_lec_diff_', k)))"),
+             ('closure-variables-with-pc', "implies(instance_options[Instance_options.PC], len(self.project_closures) == self.num_projects and forall(j, 0, self.num_projects, self.project_closures[j] == indexedvar('project_closures_', j)))"),
+             ('exactly-the-variable-domains-are-added', 'feas() == (old(feas()) and PAIRS() and implies(needs_lb(len(optimisation_options)), forall(k, 0, self.num_lecturers, lb_dom(k)))'
+              ' and implies(instance_options[Instance_options.PC], forall(j, 0, self.num_projects, pc_dom(j))))')]),
 }
